@@ -67,6 +67,10 @@ inductive Op where
   | request (k : Key) (skip : Bool) (early : Bytes)
   | recv (c : Nat) (data : Bytes)
   | peerClose (c : Nat) (os : Bool)
+  /-- the transport of `c` starts closing (peer FIN read); `connection_lost` comes with `peerClose` -/
+  | beginClose (c : Nat)
+  /-- from now on the transport of `c` holds `connection_lost` back after `transport.close()` -/
+  | hold (c : Nat)
   | read (j : Nat)
   | release (j : Nat)
   | close (j : Nat)
@@ -285,7 +289,7 @@ def opRead (w : World P) (j : Nat) : World P :=
         | some y =>
           -- StreamReader.readany: `_wait` (dead protocol → RuntimeError; cancelled timer → TimeoutError),
           -- then `_read_nowait` → `timer.assert_timeout()`
-          if y.exc.isNone && !y.eof && (y.data.isEmpty || !w.payTimedOut y) && !cn.connected then
+          if y.exc.isNone && !y.eof && (y.data.isEmpty || !w.payTimedOut y) && !cn.transportSet then
             fail (giveUp (notifyContent w j) j true) j .runtime
           else if y.exc.isNone && w.payTimedOut y then fail (giveUp (notifyContent w j) j true) j .timeout
           else wake (w.modExch j (fun e => { e with phase := .reading })) j (fuelOf w)
@@ -340,6 +344,10 @@ def step (w : World P) : Op → World P
   | .request k skip early => opRequest w k skip early
   | .recv c data => opRecv w c data
   | .peerClose c os => opPeerClose w c os
+  | .beginClose c =>
+    (match w.conns[c]? with | some cn => w.setConn c cn.beginClose | none => w)
+  | .hold c =>
+    (match w.conns[c]? with | some cn => w.setConn c { cn with holdLost := true } | none => w)
   | .read j => opRead w j
   | .release j => opRelease w j
   | .close j => opClose w j
